@@ -442,7 +442,10 @@ def _get_or_set_cache(
     cache_key = (func.output_name, to_hashable(kwargs))
 
     if cache_key in cache:
-        return cache.get(cache_key)
+        value = cache.get(cache_key)
+        if value is not None or cache_key in cache:
+            return value
+        # Otherwise the entry was evicted (by another process) in between, compute it
     if isinstance(cache, HybridCache):
         t = time.monotonic()
     result = compute_fn()
